@@ -29,6 +29,12 @@ FORBIDDEN = {
     "fragment": dict(
         [(b, "C0 control") for b in C0] + [(0x7F, "DEL control"), (0x25, "'%' (creates a new escape)")]
     ),
+    # an item is split on its first '=' only: '=' is plain text in a value, '&' and '#' still end it
+    "query value": dict(
+        [(b, "C0 control") for b in C0]
+        + [(0x7F, "DEL control"), (0x25, "'%' (creates a new escape)")]
+        + [(ord(c), "query-item delimiter %r" % c) for c in "&#"]
+    ),
 }
 UNRESERVED = set(map(ord, "ABCDEFGHIJKLMNOPQRSTUVWXYZabcdefghijklmnopqrstuvwxyz0123456789-._~"))
 
@@ -79,6 +85,7 @@ class InterpretedUnquoteModel(object):
             raise AnalysisError("quote.unquote not found")
         self.fn = ref.node
         self.callables = {}
+        F.sync_components(repo)
         for name in F.COMPONENTS:
             try:
                 self.callables[name] = module_value(repo, "quote", name)
